@@ -145,6 +145,31 @@ def pair_parsers(ck):
                              "reversed order: the file lists them in reference order on both strands, so alignedPairs[0] of a '-' "
                              "record read back is the last pair that was written", found=T.show(pa.value)[:160],
                              required="the pairs in file order, whatever the strand")
+    # label numbers come back as written: the factory of the plain parser and the map-aware parser convert the token with int() only
+    ck.clause("C18.16", "a label number read back is int(<token of the Alignment string>): no offset is added (XMAP label numbers are "
+                        "1-based as written)")
+    n_site = 0
+    create = p.find_method("BenchmarkAlignedPair", "create")
+    for f in [create] + fns:
+        for pa in explore(ck, f, unroll=(0, 1)):
+            for t, facts, node, kind in path_terms(pa):
+                for x in T.subterms(t):
+                    if x[0] == "new" and x[1].endswith(":BenchmarkAlignmentPosition"):
+                        site = dict(x[2]).get("siteId")
+                        if site is None:
+                            continue
+                        n_site += 1
+                        if site[0] == "poly":
+                            items = dict(T.to_poly(site))
+                            const = items.get((), 0)
+                            if const != 0 and len(items) == 2:
+                                ck.violation("C18.16", short(f) + ":label-number", where(f, node),
+                                             f"the label number read back is the written number {const:+d}: every pair of every record "
+                                             "names another label than the one that was written", found=T.show(site)[:100],
+                                             required="int(<token>)")
+    ck.floor("C18.16 label numbers constructed by the pair parsers", n_site, 4)
+    if not any(o.rule == "C18.16" and o.status == "VIOLATION" for o in ck.obligations):
+        ck.ok("C18.16", "XMAP pair parsers:label-numbers", plain.where, f"{n_site} constructions: none offsets the label number")
     ck.floor("C18.12 return paths of the XMAP pair parsers", n, 2)
     if not bad:
         ck.ok("C18.12", "XMAP pair parsers", plain.where, f"{n} return paths: none re-orders the pairs by strand")
@@ -202,6 +227,10 @@ def run(ck):
                                         "src.parsers.xmap_alignment_pair_parser", "src.correlation.bionano_alignment"), floor=15)
     parser_maps(ck)
     pair_parsers(ck)
+    ck.clause("C18.15", "a joined record lists the pairs of its two resolved segments (as C08.6): a record that lost its pairs is written "
+                        "with an empty Alignment cell, which no pair parser can read back")
+    from . import c08 as _c08
+    _c08._joined_row(_RV18(ck, {"C08.6": "C18.15"}))
     main_output_always_written(ck, "C18.14")
     w = extract_writer(ck)
     r = extract_reader(ck)
